@@ -5,8 +5,10 @@ from cryptography.hazmat.primitives import serialization
 from cryptography.hazmat.primitives.asymmetric import ec, rsa, ed25519
 
 DIR = os.path.join(os.path.dirname(os.path.dirname(os.path.abspath(__file__))), "fixtures", "keys")
+COUNTS_NOTE = "derived keys (DERIVED) are computed from fixtures, not stored"
 COUNTS = {"p256": 6, "p384": 3, "p521": 3, "ed25519": 4, "rsa": 6, "p256lz": 2, "p521lz": 1, "secp256k1": 1, "rsa3": 1,
-          "rsa2047": 1, "rsa1024": 1, "rsa3072": 1, "brainpoolp256r1": 1}
+          "rsa2047": 1, "rsa1024": 1, "rsa3072": 1, "brainpoolp256r1": 1,
+          "rsa4096": 1}
 CURVES = {"p256": ec.SECP256R1, "p384": ec.SECP384R1, "p521": ec.SECP521R1, "secp256k1": ec.SECP256K1,
           "brainpoolp256r1": ec.BrainpoolP256R1}
 
@@ -14,7 +16,7 @@ CURVES = {"p256": ec.SECP256R1, "p384": ec.SECP384R1, "p521": ec.SECP521R1, "sec
 def _gen(kind):
     if kind == "rsa":
         return rsa.generate_private_key(public_exponent=65537, key_size=2048)
-    if kind in ("rsa2047", "rsa1024", "rsa3072"):   # other modulus sizes, incl. one that is not a multiple of 8 bits
+    if kind in ("rsa2047", "rsa1024", "rsa3072", "rsa4096"):   # other modulus sizes, incl. one that is not a multiple of 8 bits
         return rsa.generate_private_key(public_exponent=65537, key_size=int(kind[3:]))
     if kind == "rsa3":
         return rsa.generate_private_key(public_exponent=3, key_size=2048)
@@ -44,8 +46,30 @@ def generate():
                                         serialization.NoEncryption()))
 
 
+def _derived_rsa(base, min_e):
+    """an RSA key with the primes of `base` (hence the same modulus) and the smallest odd public exponent >= min_e that
+    is admissible for them"""
+    import math
+    nums = base.private_numbers()
+    p, q = nums.p, nums.q
+    lam = (p - 1) * (q - 1) // math.gcd(p - 1, q - 1)
+    e = min_e | 1
+    while math.gcd(e, lam) != 1 or e == nums.public_numbers.e:
+        e += 2
+    d = pow(e, -1, lam)
+    return rsa.RSAPrivateNumbers(p, q, d, d % (p - 1), d % (q - 1), pow(q, -1, p), rsa.RSAPublicNumbers(e, nums.public_numbers.n)).private_key()
+
+
+DERIVED = {"rsa-same-n-small-e": ("rsa", 0, 3),          # same modulus as rsa-0, another (small) exponent
+           "rsa-33bit-e": ("rsa", 4, 2 ** 32 + 1),       # public exponent that needs 5 bytes
+           "rsa-64bit-e": ("rsa", 5, 2 ** 64 + 1)}
+
+
 @functools.lru_cache(maxsize=None)
 def get(kind, idx=0):
+    if kind in DERIVED:
+        b, i, e = DERIVED[kind]
+        return _derived_rsa(get(b, i), e)
     with open(os.path.join(DIR, f"{kind}-{idx % COUNTS[kind]}.pem"), "rb") as f:
         return serialization.load_pem_private_key(f.read(), password=None)
 
